@@ -1218,6 +1218,67 @@ val kf_c20_go : nat -> n list -> bool
 
 val kf_c20 : n list -> bool
 
+type akind =
+| KIgnore
+| KPrint
+| KExecute
+| KCollect
+| KParam
+| KEscDispatch
+| KCsiDispatch
+| KPut
+| KOscPut
+
+type trans = { t_next : pstate; t_kind : akind; t_clear : bool }
+
+val inr : n -> n -> n -> bool
+
+val c0_exec : n -> bool
+
+val entry_clears : pstate -> bool
+
+val goto : pstate -> akind -> trans
+
+val stay : pstate -> akind -> trans
+
+val anywhere : n -> trans option
+
+val csi_param_char : n -> bool
+
+val osc_bel_terminates : bool
+
+val state_row : pstate -> n -> trans
+
+val fold_high : n -> n
+
+val williams : pstate -> n -> trans
+
+val c0c1_table : (n * func) list
+
+val assoc_N : n -> (n * 'a1) list -> 'a1 option
+
+val execute_spec : n -> func option
+
+val ansi_mode_spec : n -> ansi_mode option
+
+val dec_mode_spec : n -> dec_mode option
+
+val ed_spec : param list -> func option
+
+val el_spec : param list -> func option
+
+val ctc_spec : param list -> func option
+
+val tbc_spec : param list -> func option
+
+val xtwinops_spec : param list -> func option
+
+val csi_plain : param list -> nat -> (n * func option) list
+
+val csi_spec : param list -> nat -> n option -> n -> func option
+
+val esc_spec : n option -> n -> func option
+
 val holds_C02_state : vt -> bool
 
 val holds_C02_call : op -> vt -> nat list -> bool
@@ -1235,6 +1296,8 @@ val sgr_op_eqb : sgr_op -> sgr_op -> bool
 val sgr_decode_ok : sgr_op list -> parser0 -> bool
 
 val holds_C03_sgr : func -> vt -> bool
+
+val spec_emit : parser0 -> n -> func option
 
 val holds_C08 : vt -> func -> vt -> bool
 
